@@ -50,11 +50,17 @@ Record l2state := {
 (* ---- messages ---- *)
 (* The hook payload of a deposit, described structurally: empty, undecodable bytes, or a tx
    signed by [signer] with sequence [tx_seq] whose signature is ([sig_ok]) or is not valid for
-   that sequence, carrying bank sends (to, denom, amount) from the signer. *)
+   that sequence, carrying messages of the signer (bank sends, token withdrawals). *)
+(* a message carried by the hook tx, signed by the hook signer: a bank MsgSend, or a
+   MsgInitiateTokenWithdrawal whose Sender string is [sender] *)
+Inductive hmsg :=
+| HSend (to : N) (d : bytes) (amt : Z)
+| HWithdraw (sender to d : bytes) (amt : Z).
+
 Inductive hookp :=
 | HNone
 | HGarbage
-| HTx (signer tx_seq : N) (sig_ok : bool) (sends : list (N * bytes * Z)).
+| HTx (signer tx_seq : N) (sig_ok : bool) (msgs : list hmsg).
 
 Record fdep := {
   fd_sender : bytes; fd_from : bytes; fd_to : bytes; fd_denom : bytes; fd_amt : Z;
@@ -135,6 +141,19 @@ Definition set_params (c : cfg) (s : l2state) (p : params) : option l2state :=
   if bool_decide (p_maxv p < N.of_nat (size (vals (vs s))))%N then None else
   Some (set_prm s p).
 
+(* ---- user withdrawal ---- *)
+Definition withdraw (c : cfg) (s : l2state) (sender to d : bytes) (amt : Z) : option (l2state * resp) :=
+  a ← resolve c sender;
+  if bool_decide (to = []) then None else
+  (* Validate: valid positive coin that fits the uint64 the L1 withdrawal hash commits to *)
+  if negb (valid_denom d && (0 <? amt)%Z && (amt <? 18446744073709551616)%Z) then None else
+  b1 ← bank_send (bk s) a (modacc c) d amt;
+  b2 ← bank_burn b1 (modacc c) d amt;
+  base ← pairs s !! d;
+  Some (push_withdrawal (set_bk s b2)
+          {| w_seq := next_l2 s; w_from := sender; w_to := to; w_denom := d; w_base := base; w_amt := amt; w_refund := false |},
+        RSeq (next_l2 s)).
+
 (* ---- deposits ---- *)
 (* safeDepositToken: zero amount only creates the account; otherwise mint to the module and
    send to the recipient on a cache that is committed only if both succeed *)
@@ -155,17 +174,29 @@ Definition hook_send (c : cfg) (b : bank) (from : N) (snd : N * bytes * Z) : opt
 
 Definition hook_gas_floor : N := 3000.
 
-(* handleBridgeHook: decode, ante (signature + sequence; persists), messages on a cache *)
+(* one message of the hook tx, executed by the router on the hook's cache.  A withdrawal is the
+   user withdrawal handler run for the hook signer (a Sender string that is not the signer's
+   makes the tx unsignable; modelled as a failing message - the harness never generates it) *)
+Definition hook_msg (c : cfg) (s : l2state) (signer : N) (m : hmsg) : option l2state :=
+  match m with
+  | HSend to d amt => b ← hook_send c (bk s) signer (to, d, amt); Some (set_bk s b)
+  | HWithdraw sender to d amt =>
+      if negb (bool_decide (resolve c sender = Some signer)) then None else
+      '(s', _) ← withdraw c s sender to d amt; Some s'
+  end.
+
+(* handleBridgeHook: decode, ante (signature + sequence; persists), messages on a cache that is
+   committed - together with the events of the messages - only if all of them succeed *)
 Definition run_hook (c : cfg) (s : l2state) (h : hookp) : l2state * bool :=
   match h with
   | HNone => (s, true)
   | HGarbage => (s, false)
-  | HTx signer tseq sig_ok sends =>
+  | HTx signer tseq sig_ok msgs =>
       if (p_hookgas (prm s) <? hook_gas_floor)%N then (s, false) else
       if negb (sig_ok && (tseq =? getseq s signer)%N) then (s, false) else
       let s1 := set_seqs s (<[signer := (getseq s signer + 1)%N]> (seqs s)) in
-      match foldl (λ ob snd, b ← ob; hook_send c b signer snd) (Some (bk s1)) sends with
-      | Some b => (set_bk s1 b, true)
+      match foldl (λ os m, s ← os; hook_msg c s signer m) (Some s1) msgs with
+      | Some s2 => (s2, true)
       | None => (s1, false)
       end
   end.
@@ -211,21 +242,6 @@ Definition finalize_deposit (c : cfg) (s : l2state) (m : fdep) : option (l2state
           {| w_seq := next_l2 s5; w_from := fd_to m; w_to := fd_from m;
              w_denom := fd_denom m; w_base := base; w_amt := fd_amt m; w_refund := true |},
         RSuccess).
-
-(* ---- user withdrawal ---- *)
-(* MsgInitiateTokenWithdrawal.Validate: IsValid, IsPositive and Amount.IsUint64 (the amount
-   must fit the uint64 the L1 withdrawal hash commits to - repair af9c5ae) *)
-Definition two64 : Z := 18446744073709551616.
-Definition withdraw (c : cfg) (s : l2state) (sender to d : bytes) (amt : Z) : option (l2state * resp) :=
-  a ← resolve c sender;
-  if bool_decide (to = []) then None else
-  if negb (valid_denom d && (0 <? amt)%Z && (amt <? two64)%Z) then None else
-  b1 ← bank_send (bk s) a (modacc c) d amt;
-  b2 ← bank_burn b1 (modacc c) d amt;
-  base ← pairs s !! d;
-  Some (push_withdrawal (set_bk s b2)
-          {| w_seq := next_l2 s; w_from := sender; w_to := to; w_denom := d; w_base := base; w_amt := amt; w_refund := false |},
-        RSeq (next_l2 s)).
 
 (* ---- bridge info ---- *)
 Definition binfo_valid (bi : binfo) : bool :=
